@@ -661,7 +661,7 @@ def save_sequence(ctx: Ctx, failure: bool = True) -> None:
             elif e.kind in ("store", "aug", "delete"):
                 toks.append("other " + e.text)
         decs.append(Dec(dict(s_.plain_assign()), tuple(toks), s_))
-    ctx.floor("paths through mutate()", len(decs), 3)
+    ctx.floor("paths through mutate()", len(decs), 1)
     out = "output_filename or input_filename"
 
     def spec(a):
